@@ -1134,6 +1134,13 @@ static JanetFile *get_stdio_for_handle(JanetHandle handle, void *orig, int iswri
 }
 #endif
 
+/* Close this process's ends of the pipes made for a child when the child (or its proc object) cannot be created. */
+static void os_execute_close_owned(int owner_flags, JanetHandle in, JanetHandle out, JanetHandle err) {
+    if ((owner_flags & JANET_PROC_OWNS_STDIN) && in != JANET_HANDLE_NONE) close_handle(in);
+    if ((owner_flags & JANET_PROC_OWNS_STDOUT) && out != JANET_HANDLE_NONE) close_handle(out);
+    if ((owner_flags & JANET_PROC_OWNS_STDERR) && err != JANET_HANDLE_NONE) close_handle(err);
+}
+
 typedef enum {
     JANET_EXECUTE_EXECUTE,
     JANET_EXECUTE_SPAWN,
@@ -1175,20 +1182,18 @@ static Janet os_execute_impl(int32_t argc, Janet *argv, JanetExecuteMode mode) {
         Janet maybe_stdin = janet_dictionary_get(tab.kvs, tab.cap, janet_ckeywordv("in"));
         Janet maybe_stdout = janet_dictionary_get(tab.kvs, tab.cap, janet_ckeywordv("out"));
         Janet maybe_stderr = janet_dictionary_get(tab.kvs, tab.cap, janet_ckeywordv("err"));
+        /* Only note which pipes are wanted here: they are created below, after everything that can still raise. */
         if (is_spawn && janet_keyeq(maybe_stdin, "pipe")) {
-            new_in = make_pipes(&pipe_in, 1, &pipe_errflag);
             pipe_owner_flags |= JANET_PROC_OWNS_STDIN;
         } else if (!janet_checktype(maybe_stdin, JANET_NIL)) {
             new_in = janet_getjstream(&maybe_stdin, 0, &orig_in);
         }
         if (is_spawn && janet_keyeq(maybe_stdout, "pipe")) {
-            new_out = make_pipes(&pipe_out, 0, &pipe_errflag);
             pipe_owner_flags |= JANET_PROC_OWNS_STDOUT;
         } else if (!janet_checktype(maybe_stdout, JANET_NIL)) {
             new_out = janet_getjstream(&maybe_stdout, 0, &orig_out);
         }
         if (is_spawn && janet_keyeq(maybe_stderr, "pipe")) {
-            new_err = make_pipes(&pipe_err, 0, &pipe_errflag);
             pipe_owner_flags |= JANET_PROC_OWNS_STDERR;
         } else if (is_spawn && janet_keyeq(maybe_stderr, "out")) {
             stderr_is_stdout = 1;
@@ -1212,11 +1217,17 @@ static Janet os_execute_impl(int32_t argc, Janet *argv, JanetExecuteMode mode) {
         }
     }
 
+    /* Create the requested pipes */
+    if (pipe_owner_flags & JANET_PROC_OWNS_STDIN) new_in = make_pipes(&pipe_in, 1, &pipe_errflag);
+    if (pipe_owner_flags & JANET_PROC_OWNS_STDOUT) new_out = make_pipes(&pipe_out, 0, &pipe_errflag);
+    if (pipe_owner_flags & JANET_PROC_OWNS_STDERR) new_err = make_pipes(&pipe_err, 0, &pipe_errflag);
+
     /* Clean up if any of the pipes have any issues */
     if (pipe_errflag) {
         if (pipe_in != JANET_HANDLE_NONE) close_handle(pipe_in);
         if (pipe_out != JANET_HANDLE_NONE) close_handle(pipe_out);
         if (pipe_err != JANET_HANDLE_NONE) close_handle(pipe_err);
+        os_execute_close_owned(pipe_owner_flags, new_in, new_out, new_err);
         janet_panic("failed to create pipes");
     }
 
@@ -1239,6 +1250,7 @@ static Janet os_execute_impl(int32_t argc, Janet *argv, JanetExecuteMode mode) {
         if (pipe_in != JANET_HANDLE_NONE) CloseHandle(pipe_in);
         if (pipe_out != JANET_HANDLE_NONE) CloseHandle(pipe_out);
         if (pipe_err != JANET_HANDLE_NONE) CloseHandle(pipe_err);
+        os_execute_close_owned(pipe_owner_flags, new_in, new_out, new_err);
         janet_panic("command line string too long (max 8191 characters)");
     }
     const char *path = (const char *) janet_unwrap_string(exargs.items[0]);
@@ -1296,6 +1308,7 @@ static Janet os_execute_impl(int32_t argc, Janet *argv, JanetExecuteMode mode) {
     os_execute_cleanup(envp, NULL);
 
     if (cp_failed)  {
+        os_execute_close_owned(pipe_owner_flags, new_in, new_out, new_err);
         janet_panic("failed to create process");
     }
 
@@ -1398,6 +1411,7 @@ static Janet os_execute_impl(int32_t argc, Janet *argv, JanetExecuteMode mode) {
 
     os_execute_cleanup(envp, child_argv);
     if (status) {
+        os_execute_close_owned(pipe_owner_flags, new_in, new_out, new_err);
         /* correct for macos bug where errno is not set */
         janet_panicf("%p: %s", argv[0], janet_strerror(errno ? errno : ENOENT));
     }
@@ -1422,15 +1436,24 @@ static Janet os_execute_impl(int32_t argc, Janet *argv, JanetExecuteMode mode) {
         /* Only set up pointers to stdin, stdout, and stderr if os/spawn. */
         if (new_in != JANET_HANDLE_NONE) {
             proc->in = get_stdio_for_handle(new_in, orig_in, 1);
-            if (NULL == proc->in) janet_panic("failed to construct proc");
+            if (NULL == proc->in) {
+                os_execute_close_owned(pipe_owner_flags, new_in, new_out, new_err);
+                janet_panic("failed to construct proc");
+            }
         }
         if (new_out != JANET_HANDLE_NONE) {
             proc->out = get_stdio_for_handle(new_out, orig_out, 0);
-            if (NULL == proc->out) janet_panic("failed to construct proc");
+            if (NULL == proc->out) {
+                os_execute_close_owned(pipe_owner_flags, JANET_HANDLE_NONE, new_out, new_err);
+                janet_panic("failed to construct proc");
+            }
         }
         if (new_err != JANET_HANDLE_NONE) {
             proc->err = get_stdio_for_handle(new_err, orig_err, 0);
-            if (NULL == proc->err) janet_panic("failed to construct proc");
+            if (NULL == proc->err) {
+                os_execute_close_owned(pipe_owner_flags, JANET_HANDLE_NONE, JANET_HANDLE_NONE, new_err);
+                janet_panic("failed to construct proc");
+            }
         }
         return janet_wrap_abstract(proc);
     } else {
